@@ -122,6 +122,7 @@ type EntrySpec struct {
 
 type CRLSpec struct {
 	Version     int // 0 = field absent (v1); 1 = v2; n = INTEGER n
+	VersionRaw  []byte // when set: the content octets of the version INTEGER as they are (e.g. the single octet 0xff)
 	Alg         sigAlgSpec
 	AlgParams   bool // NULL parameters (RSA)
 	IssuerRaw   []byte
@@ -157,7 +158,9 @@ func (e EntrySpec) DER() []byte {
 // Build returns the DER CRL and its tbsCertList bytes.
 func (s CRLSpec) Build() (der, tbs []byte) {
 	var parts [][]byte
-	if s.Version > 0 {
+	if s.VersionRaw != nil {
+		parts = append(parts, derTLV(0x02, s.VersionRaw))
+	} else if s.Version > 0 {
 		parts = append(parts, derInt(big.NewInt(int64(s.Version))))
 	}
 	inner := algIdDER(s.Alg.OID, s.AlgParams)
